@@ -11,8 +11,8 @@
 //@@ include tokens.rs
 //@@ include tokens_bytes.rs
 //@@ include tokbridge.rs
-//@@ props ^DiffableStr for str::tokenize_ : C06 C04
-//@@ props ^DiffableStr::tokenize_ : C06 C04
+//@@ props ^DiffableStr for str::tokenize_ : C06 C04 C17
+//@@ props ^DiffableStr::tokenize_ : C06 C04 C17
 //@@ props ^DiffableStr for str::(len|slice)$|^DiffableStr::(len|slice)$ : C17 C04
 //@@ props ^DiffableStrRef for T::as_diffable_str$ : C04
 //@@ props ^lemma_tok_|^lemma_tokb_|^lemma_tokpart_ : C06 C04 C17
